@@ -17,10 +17,20 @@ RULE = ("Listings L from the real objdump (random ELF64/ELF32 objects), from tes
         "distinct = (L hash, edit script).")
 FLOOR = {"quick": 150, "thorough": 2500}
 ANCHOR_HINTS = ["asm_manual_parser_w_regex", "gnu_objdump_parser_manual"]
-REQUIRED_EVENTS = ["pairs_compared"]
+REQUIRED_EVENTS = ["pairs_compared", "huge_pairs_compared"]
 
 SYMS = ["main", "_start", "f.cold", "foo@plt", "L1", "add", "x<y>", "operator<<", "a b", "#hash", "data16 x"]
 SYMS[5:5] = ["foo(int, char)", "std::vector<int, std::allocator<int> >::push_back(int const&)"]      # demangled names (objdump -C)
+
+
+# names a section holding code may legitimately carry (packed / hand-written objects): the banner is presentation whatever it says
+SECTION_NAMES = [".text", ".init", "weird name", ".text.unlikely", ".debug_x", ".zdebug_info", ".debug_line", ".comment", ".note.gnu", ".rodata", ".data", ".bss",
+                 ".eh_frame", "UPX0", ".plt.sec", ".text$mn", ".fini_array", "-", ".", "x" * 300]
+
+
+def long_name(rng) -> str:
+    """Very long (mangled) symbol names: objdump prints them in full."""
+    return "_ZN" + "".join(rng.choice("abcdefghijklmnopqrstuvwxyzABCDEFGHIJKLMNOPQRSTUVWXYZ0123456789_") for _ in range(rng.choice([300, 1100, 1204, 5000])))
 
 
 def core_of(text: str) -> str:
@@ -58,12 +68,12 @@ def edit_listing(rng, text: str):
                 if ann and rng.random() < 0.5:
                     ann = None
                 elif has_ops:
-                    ann = f"<{rng.choice(SYMS[:7])}{rng.choice(['', '+0x10', '-0x8'])}>"
+                    ann = f"<{rng.choice(SYMS[:7]) if rng.random() < 0.9 else long_name(rng)}{rng.choice(['', '+0x10', '-0x8'])}>"
             if do("comment"):
                 if com and rng.random() < 0.5:
                     com = None
                 else:
-                    com = "# " + rng.choice(["4010 <x+0x1>", "comment, with | bars :: and ,commas", "0x10", "%rax,%rbx", "Disassembly of section .text:",
+                    com = "# " + (long_name(rng) if rng.random() < 0.08 else "") + rng.choice(["4010 <x+0x1>", "comment, with | bars :: and ,commas", "0x10", "%rax,%rbx", "Disassembly of section .text:",
                                              "see Disassembly of section .init: above", "file format elf64-x86-64", "0000000000401000 <main>:", "...", "401000:\t90 \tnop"])
             spaces = " " * rng.randint(0, 12) if do("indent") else raw[: len(raw) - len(raw.lstrip(" "))]
             nb = ln.nbytes
@@ -91,9 +101,9 @@ def edit_listing(rng, text: str):
             if do("blank"):
                 out.append("")
             if do("label"):
-                out.append(f"{int(ln.addr, 16) + 1:016x} <{rng.choice(SYMS)}>:")
+                out.append(f"{int(ln.addr, 16) + 1:016x} <{rng.choice(SYMS) if rng.random() < 0.9 else long_name(rng)}>:")
             if do("section-header"):
-                out += ["", f"Disassembly of section {rng.choice(['.text', '.init', 'weird name', '.text.unlikely'])}:", ""]
+                out += ["", f"Disassembly of section {rng.choice(SECTION_NAMES)}:", ""]
         elif ln.kind == "cont":
             if do("remove-continuation"):
                 continue
@@ -110,7 +120,7 @@ def edit_listing(rng, text: str):
             elif raw.startswith("Disassembly of section") and do("section-header-change"):
                 if rng.random() < 0.5:
                     continue
-                raw = "Disassembly of section .renamed:"
+                raw = f"Disassembly of section {rng.choice(['.renamed'] + SECTION_NAMES)}:"
             elif "file format" in raw and do("file-header"):
                 if rng.random() < 0.5:
                     continue
@@ -209,9 +219,32 @@ def _shrink(case, text, text2):
     return case
 
 
+def huge_pair(ctx, ws, mib):
+    """One very large listing (17 MiB in the quick tier, 17 and 33 MiB in the thorough tier) in two presentations: instruction rows starting in column 0 with 16-digit
+    addresses (what `objdump -d vmlinux` prints) and the same rows indented by two blanks with a label and a banner."""
+    n = mib * 1024 * 1024 // 44 + 1000
+    rows = [f"{0xffffffff81000000 + 4 * j:016x}:\t{'90' if j % 3 else 'c3':<21}\t{'nop' if j % 3 else 'ret'}" for j in range(n)]
+    a = "\n".join(rows) + "\n"
+    b = "\nvmlinux:     file format elf64-x86-64\n\n\nDisassembly of section .text:\n\nffffffff81000000 <_text>:\n" + "\n".join("  " + r for r in rows) + "\n"
+    p1, p2 = ws.write("huge_a.s", a), ws.write("huge_b.s", b)
+    r1, r2 = objd.real_stream(ws, p1), objd.real_stream(ws, p2)
+    ctx.ran(2)
+    ctx.event("huge_pairs_compared")
+    ctx.event("huge_pair_bytes", len(a))
+    ctx.case(("huge", mib), True, stratum="huge listing pair")
+    if r1[0] != "ok" or r2[0] != "ok" or r1[1] != r2[1] or r1[1].count("|") != n:
+        ctx.disagreement({"origin": f"huge pair {mib} MiB", "listing": a[:2000], "edited": b[:2000], "edits": ["indent", "label", "section-header", "file-header"]},
+                         f"a {len(a) >> 20} MiB listing of {n} instruction rows in column 0 yields {r1[1].count('|') if r1[0] == 'ok' else r1[1:3]} records, "
+                         f"the same rows indented with banner and label yield {r2[1].count('|') if r2[0] == 'ok' else r2[1:3]}")
+
+
 def run_shard(ctx):
     ws = real.Workspace()
     rng = ctx.rng
+    if ctx.tier == "thorough" and ctx.shard < 2:
+        huge_pair(ctx, ws, [17, 33][ctx.shard])
+    elif ctx.tier != "thorough" and ctx.shard == 5 % ctx.nshards:
+        huge_pair(ctx, ws, 17)
     fx = [f for f in objd.fixtures() if os.path.getsize(f) < 200_000]
     n = ctx.share(1500, 100000)
     for k in range(n):
